@@ -24,6 +24,9 @@
 //!                                       -> calls=<key:msg,…|-> done=<bool> [held= fin= rx=]
 //!   seq <key>                    what the subscriber received under <key>        -> o,o,…|-
 //!   dispatch <ad> <dead> <subs> <batch>   (v2 build) real dispatch_batch         -> trace | keys
+//!   pubcheck <m>                 (v1) a publisher THREAD runs the real send(m) up to the schedule point
+//!                                between receiver_count() and tx.send()    -> parked | skipped | closed
+//!   pubstore                     the oldest parked publisher performs its tx.send -> ok | none
 //!   drop                         drop the OutputPort (the last sender; v1: also the JoinHandles,
 //!                                which detaches the forwarding tasks)            -> ok
 //!                                afterwards: pub / sub -> closed; a grant must end with done=true
@@ -140,6 +143,8 @@ struct World {
     npub: u64,
     /// publications since the last grant of any task
     unpolled: u64,
+    /// publisher threads parked between `receiver_count()` and `tx.send()`
+    inflight: std::collections::VecDeque<(Arc<ractor::verif::ThreadCtl>, std::thread::JoinHandle<()>)>,
     last_grant: std::collections::HashMap<usize, u64>,
 }
 
@@ -168,7 +173,7 @@ impl World {
         let port = Arc::new(OutputPort::<u64>::default());
         CALLS.lock().unwrap().clear();
         FROM_KEY.store(u64::MAX, std::sync::atomic::Ordering::SeqCst);
-        World { ctl, port: Arc::new(Mutex::new(Some(port))), actors, gates, actor_tasks: vec![], tasks: Default::default(), npub: 0, unpolled: 0, last_grant: Default::default() }
+        World { ctl, port: Arc::new(Mutex::new(Some(port))), actors, gates, actor_tasks: vec![], tasks: Default::default(), npub: 0, unpolled: 0, inflight: Default::default(), last_grant: Default::default() }
     }
 
     /// subscriber actors are not under test: whenever one of their (gated) loops can run, it runs
@@ -260,7 +265,53 @@ impl World {
                 let inline = CALLS.lock().unwrap().len() - before;
                 if inline == 0 { "ok".into() } else { format!("ok inline-converter-calls={inline}") }
             }
+            #[cfg(not(feature = "outport-v2"))]
+            ["pubcheck", m] => {
+                st.bump("pubcheck");
+                let m: u64 = m.parse().unwrap();
+                let p = {
+                    let guard = self.port.lock().unwrap();
+                    let Some(port) = guard.as_ref() else { return "closed".into() };
+                    port.clone()
+                };
+                let ctl = ractor::verif::ThreadCtl::new();
+                let c2 = ctl.clone();
+                let h = std::thread::spawn(move || {
+                    ractor::verif::thread_register(c2.clone());
+                    let r = std::panic::catch_unwind(std::panic::AssertUnwindSafe(|| p.send(m)));
+                    drop(p);
+                    ractor::verif::thread_unregister();
+                    c2.finish();
+                    if let Err(e) = r {
+                        std::panic::resume_unwind(e);
+                    }
+                });
+                match ctl.wait_parked() {
+                    ractor::verif::ThreadPhase::AtPoint(_) => {
+                        st.bump("publisher_parked_between_check_and_store");
+                        self.inflight.push_back((ctl, h));
+                        "parked".into()
+                    }
+                    _ => {
+                        let _ = h.join();
+                        self.npub += 1;
+                        "skipped".into()
+                    }
+                }
+            }
+            ["pubstore"] => {
+                let Some((ctl, h)) = self.inflight.pop_front() else { return "none".into() };
+                st.bump("pubstore");
+                ctl.release();
+                ctl.wait_parked();
+                let r = h.join();
+                self.npub += 1;
+                if r.is_ok() { "ok".into() } else { "panicked".into() }
+            }
             ["drop"] => {
+                if !self.inflight.is_empty() {
+                    return "busy".into();
+                }
                 st.bump("drop");
                 let taken = self.port.lock().unwrap().take();
                 if let Some(p) = taken {
@@ -408,6 +459,10 @@ impl World {
             }
         }
         // let every gated task run to its end so nothing stays parked forever
+        while let Some((ctl, h)) = self.inflight.pop_front() {
+            ctl.release();
+            let _ = h.join();
+        }
         let last = self.port.lock().unwrap().take();
         drop(last);
         for t in self.ctl.tasks() {
@@ -473,6 +528,8 @@ fn gen_case(rng: &mut Rng, n: u64) -> Vec<String> {
     let drop_at = if rng.chance(1, 3) { Some(rng.range(steps / 2, steps - 1)) } else { None };
     let mut dropped = false;
     let mut from_used = false;
+    // publisher threads parked inside `send` (v1, not with re-entrant converters)
+    let mut inflight = 0u32;
     let grant_all = |ops: &mut Vec<String>, keys: &[u64], rng: &mut Rng| {
         if V2 {
             ops.push("grant port".into());
@@ -486,8 +543,34 @@ fn gen_case(rng: &mut Rng, n: u64) -> Vec<String> {
     };
     for step in 0..steps {
         if drop_at == Some(step) {
+            for _ in 0..inflight {
+                ops.push("pubstore".into());
+            }
+            inflight = 0;
             ops.push("drop".into());
             dropped = true;
+        }
+        if inflight > 0 && rng.chance(1, 3) {
+            ops.push("pubstore".into());
+            inflight -= 1;
+        }
+        if !V2 && !echo_case && !dropped && rng.chance(1, 8) {
+            if !keys.is_empty() && rng.chance(1, 3) {
+                // every receiver disappears between the check and the store
+                for a in 0..nactors {
+                    ops.push(format!("drain {a}"));
+                }
+                ops.push(format!("pub {next_msg}"));
+                ops.push(format!("pubcheck {}", next_msg + 1));
+                next_msg += 2;
+                grant_all(&mut ops, &keys, rng);
+                ops.push("pubstore".into());
+                continue;
+            }
+            ops.push(format!("pubcheck {next_msg}"));
+            next_msg += 1;
+            inflight += 1;
+            continue;
         }
         let k = rng.below(100);
         if dropped && k < 50 && rng.chance(4, 5) {
@@ -546,6 +629,9 @@ fn gen_case(rng: &mut Rng, n: u64) -> Vec<String> {
         } else {
             ops.push(format!("seq {}", rng.pick(&keys)));
         }
+    }
+    for _ in 0..inflight {
+        ops.push("pubstore".into());
     }
     // what everybody has at an arbitrary point, then at quiescence
     for k in &keys {
